@@ -22,6 +22,8 @@ var boundTags = map[string]bool{"minimum": true, "maximum": true, "exclusiveMini
 
 type roleEnv struct {
 	a         *Analyzer
+	oneSided  map[*ssa.Parameter]bool   // every call that gave the parameter its role was one-sided
+	poly      map[*ssa.Parameter]bool   // parameter of a side-generic helper: no fixed role
 	param     map[*ssa.Parameter]string // inferred role of a parameter
 	field     map[string]string         // "pkg.Type.field" -> role (struct fields filled from schema fields)
 	conflicts []string
@@ -61,6 +63,30 @@ func (e *roleEnv) roleOf(v ssa.Value, depth int) string {
 	return ""
 }
 
+func sideOfRole(r string) string {
+	switch r {
+	case "minimum", "exclusiveMinimum":
+		return "lower"
+	case "maximum", "exclusiveMaximum":
+		return "upper"
+	}
+	return r
+}
+
+func mirrorRole(r string) string {
+	switch r {
+	case "minimum":
+		return "maximum"
+	case "maximum":
+		return "minimum"
+	case "exclusiveMinimum":
+		return "exclusiveMaximum"
+	case "exclusiveMaximum":
+		return "exclusiveMinimum"
+	}
+	return ""
+}
+
 // RolesReport is the outcome of the role-flow analysis.
 type RolesReport struct {
 	Results []RuleResult
@@ -69,7 +95,7 @@ type RolesReport struct {
 
 func (a *Analyzer) BoundRoles() *RolesReport {
 	rep := &RolesReport{}
-	e := &roleEnv{a: a, param: map[*ssa.Parameter]string{}, field: map[string]string{}}
+	e := &roleEnv{a: a, param: map[*ssa.Parameter]string{}, field: map[string]string{}, oneSided: map[*ssa.Parameter]bool{}, poly: map[*ssa.Parameter]bool{}}
 	// fixpoint: struct-literal fields and parameters
 	for iter := 0; iter < 6; iter++ {
 		changed := false
@@ -100,6 +126,15 @@ func (a *Analyzer) BoundRoles() *RolesReport {
 						if g == nil || !a.P.InModule(g) {
 							continue
 						}
+						// a call whose role-bearing arguments all belong to ONE side (lower: minimum/exclusiveMinimum, upper:
+						// maximum/exclusiveMaximum) may be a call of a side-generic helper
+						sides := map[string]bool{}
+						for _, arg := range x.Common().Args {
+							if r := e.roleOf(arg, 0); r != "" {
+								sides[sideOfRole(r)] = true
+							}
+						}
+						oneSided := len(sides) == 1
 						for i, arg := range x.Common().Args {
 							if i >= len(g.Params) {
 								break
@@ -109,8 +144,18 @@ func (a *Analyzer) BoundRoles() *RolesReport {
 								continue
 							}
 							p := g.Params[i]
+							if e.poly[p] {
+								continue
+							}
 							if old, ok := e.param[p]; !ok {
 								e.param[p] = r
+								e.oneSided[p] = oneSided
+								changed = true
+							} else if old != r && old == mirrorRole(r) && oneSided && e.oneSided[p] {
+								// the same parameter receives the lower-side keyword at one call and its upper-side mirror at another, and
+								// each of these calls is one-sided: a helper that treats both sides alike. Its parameter has no fixed role.
+								e.poly[p] = true
+								delete(e.param, p)
 								changed = true
 							} else if old != r {
 								msg := fmt.Sprintf("parameter %s of %s receives %q at %s but %q at another call site: two call sites disagree on the argument order", p.Name(), a.P.FuncName(g), r, a.P.InstrPos(x.(ssa.Instruction)), old)
